@@ -232,6 +232,10 @@ def corpus():
     out.append(("D3b", dict(tree=S("top", [S("in", [J("x", 5, ch=3), J("c", 1, exc=True, crit=True)], crit=False), J("t", 2, exc=True, crit=True)]))))
     # D3c: nested run cancelled while it shuts down
     out.append(("D3c", dict(tree=S("top", [S("in", [J("x", 1, sd=3)], sdT=5), J("t", 2, exc=True, crit=True)]))))
+    # D10: a job started twice: a non-critical job raises (the reaction then yields to the loop), a sibling
+    # finishes a few iterations later in the same instant, the common successor waits for a window slot
+    out.append(("D10", dict(tree=S("top", [J("A", 1, exc=True, h=0), J("B", 1, k=2, h=1), J("X1", 5, h=2), J("X2", 5, h=3),
+                                          J("K", 1, req=["A", "B"], h=4)], w=2))))
     # D7: timeout=0
     out.append(("D7", dict(tree=S("top", [J("a", 1)], T=0, crit=True))))
     out.append(("D7b", dict(tree=S("top", [S("in", [J("a", 1)], T=0, crit=True)], crit=False))))
